@@ -93,6 +93,10 @@ func (c *MetadataDefragContext[T]) Init() error {
 		c.Algorithm = AlgorithmFull
 	}
 
+	// Nothing of a previous run may survive into this one
+	c.moves = c.moves[:0]
+	c.immovableBlockCount = 0
+
 	return nil
 }
 
